@@ -25,14 +25,31 @@ from ..gen import netgen
 from ..probe import snapshot as snap
 
 PROPERTY = "C27"
-READY = False
-NOT_READY_REASON = "under construction"
+READY = True
 LEVEL = "exploration"
 TECHNIQUE = "runtime monitoring: executable set model driven with the same random operation history, compared after every operation"
-CASES = {"quick": 320, "thorough": 12000}
+CASES = {"quick": 360, "thorough": 12000}
 BUDGET = {"quick": 60, "thorough": 1500}
 CASE_TIMEOUT = 120
-FLOORS = {"quick": {"nontrivial": 150, "max_skip_frac": 0.1}, "thorough": {"nontrivial": 5000, "max_skip_frac": 0.1}}
+_QF = {  # quick floors on the per-operation / per-oracle-branch counters: about 40 % of the minimum reached over seeds 0,1,2
+    "create_ok": 550, "create_rc_name": 350, "create_rc_cid": 180, "create_bad_member": 50, "create_index_exists": 30,
+    "attach_existing_type": 300, "attach_new_type": 250, "attach_overlap": 280, "attach_convert_rc": 90, "attach_take_existing_false": 8,
+    "attach_nan_rc_row": 12, "detach_members": 240, "detach_nonmembers_only": 50, "detach_rc_name": 100, "detach_rc_cid": 50,
+    "detach_row_emptied": 160, "detach_group_emptied": 40, "drop_group": 60, "drop_group_and_elements": 40, "drop_hit_members": 300,
+    "tb_drop_buses": 45, "tb_drop_elements": 85, "tb_drop_elements_simple": 45, "tb_drop_lines": 40, "tb_drop_trafos": 40,
+    "tb_fuse_buses": 65, "tb_reindex_elements": 110, "tb_reindex_buses": 8, "tb_create_continuous_bus_index": 20,
+    "tb_create_continuous_elements_index": 20, "tb_reindex_group": 45, "reindex_moved_index_group": 80, "reindex_with_refcol_group": 110,
+    "reindex_partial_covered": 50, "replace_moved_members": 100, "tb_replace_gen_by_sgen": 12, "tb_replace_sgen_by_gen": 20,
+    "tb_replace_ext_grid_by_gen": 4, "tb_replace_gen_by_ext_grid": 12, "tb_replace_pq_elmtype": 45, "tb_replace_line_by_impedance": 18,
+    "tb_replace_impedance_by_line": 6, "tb_replace_ward_by_internal_elements": 5, "tb_replace_xward_by_internal_elements": 2,
+    "tb_replace_xward_by_ward": 3, "set_rc_changed": 170, "set_rc_refused": 2, "set_value_snapshot_checked": 180,
+    "set_value_touched_members": 140, "pf_ok": 95, "res_p_checked": 210, "res_q_checked": 210, "res_per_bus_checked": 210,
+    "res_branch_members": 110, "res_generator_members": 100, "res_refcol_group": 130, "copy_compare": 100, "compare_cross_reference": 90,
+    "compare_different": 50, "as_net": 20, "as_net_keep": 18, "q_isin": 11000, "q_isin_index": 5500, "q_assoc_list": 8000,
+    "q_assoc_single": 5500, "q_element_index": 20000, "q_count": 6500, "q_group_name": 6500}
+FLOORS = {"quick": {"nontrivial": 200, "extras": _QF, "tags": {"final_refcol_group": 120, "net:networks": 20}, "max_skip_frac": 0.1},
+          "thorough": {"nontrivial": 5000, "extras": {k: 25 * v for k, v in _QF.items()},
+                       "tags": {"final_refcol_group": 3000, "net:networks": 500}, "max_skip_frac": 0.1}}
 RULE = ("seeded random net (pv.gen.netgen profiles or a pandapower.networks case; unique 'name' strings and an integer 'cid' "
         "column in every element table) x random history of 10-30 operations out of create/attach/detach/drop group, "
         "set_group_reference_column, toolbox drops, reindexing, replace_* functions, group in/out of service, set_value_to_group, "
@@ -44,7 +61,10 @@ ASSUMPTIONS = ["element lists handed to create/attach are duplicate free lists o
                "a toolbox operation that also raises on a copy of the net WITHOUT groups is out of domain (skipped, counted)",
                "result sums: generators (ext_grid, gen, sgen) negative, everything else positive, branches by their losses; "
                "tolerance 1e-9 + 1e-9*sum|x|; reactive sums of groups with dcline members are not judged (no ql_mvar column)",
-               "uuid4 used by set_group_reference_column to name unnamed rows is replaced by a counter for determinism"]
+               "uuid4 used by set_group_reference_column to name unnamed rows is replaced by a counter for determinism",
+               "after a discrepancy net and model are restored to the state before the operation; drop_group_and_elements ends the history",
+               "in 70 % of the attach / replace operations NaN reference columns of net.group are normalised to None beforehand "
+               "(work-around for the known attach defect) so that the remaining attach logic stays observable"]
 
 BUS_ETS = ["load", "sgen", "gen", "ext_grid", "shunt", "ward", "xward", "storage", "motor", "asymmetric_load", "asymmetric_sgen"]
 BRANCH_ETS = ["line", "trafo", "trafo3w", "impedance", "dcline"]
@@ -112,10 +132,11 @@ def col_ok(net, et, rc):
 
 
 def backup(net):
+    """copies of all non-empty DataFrames (empty ones are re-emptied on restore), group lists copied too"""
     bk = {}
     for k in list(net.keys()):
         v = net[k]
-        if isinstance(v, pd.DataFrame):
+        if isinstance(v, pd.DataFrame) and (len(v) or k == "group" or k in ALL_ETS):
             bk[k] = v.copy()
     g = bk["group"]
     if len(g):
@@ -125,8 +146,11 @@ def backup(net):
 
 
 def restore(net, bk):
-    for k, v in bk.items():
-        net[k] = v
+    for k in list(net.keys()):
+        if k in bk:
+            net[k] = bk[k]
+        elif isinstance(net[k], pd.DataFrame) and len(net[k]):
+            net[k] = net[k].iloc[0:0]
 
 
 def model_from_net(net):
@@ -286,7 +310,13 @@ def compare(S, queries=True):
     if not queries:
         return D
     # ---- public query functions
-    for gi in sorted(set(M) & real_idx):
+    qg = sorted(set(M) & real_idx)
+    if S.ctx.get("op") not in ("drop", "fuse", "reindex", "replace", "drop_group_and_elements") and len(qg) > 3:
+        # operations on single groups: the touched groups and two others (net.group of all groups was compared above)
+        t = [gi for gi in qg if gi in set(_touched(S))]
+        rest = [gi for gi in qg if gi not in t]
+        qg = sorted(t + [py(i) for i in g.rng.choice(rest, min(len(rest), 2), replace=False)])
+    for gi in qg:
         ok, r = call(pp.group_name, net, gi)
         S.x["q_group_name"] += 1
         if not ok or r != M[gi]["name"]:
@@ -403,9 +433,11 @@ def classify(S, d):
     if op == "replace" and c.get("refcol_groups"):
         # _replace_group_member_element_type compares element indices with reference-column values
         if gi in c["refcol_groups"] and et in (c["old_et"], c["new_et"]):
-            return "replace_functions_lose_reference_column_members"
+            return "replace_group_transfer_ignores_reference_column"
         if code == "group_index_set" and set(model) - set(real) <= c["refcol_groups"] and not set(real) - set(model):
-            return "replace_functions_lose_reference_column_members"
+            return "replace_group_transfer_ignores_reference_column"
+        if code == "op_exception" and any(fr.name == "_replace_group_member_element_type" for fr in traceback.extract_tb(real.__traceback__)):
+            return "replace_group_transfer_ignores_reference_column"
     if op in ("drop", "fuse") and c.get("undetached"):
         # rows dropped without detach_from_groups: the group keeps the dropped members (values)
         def kept(g2, et2):
@@ -1076,8 +1108,10 @@ def op_replace(S):
                 return "skip"
             if not all(col_ok(net, n, M[gi]["m"][n][0]) for n in new_ets if n in M[gi]["m"]):
                 return "skip"
+    # _replace_group_member_element_type compares the old element INDICES with the stored reference VALUES: affected are
+    # reference-column rows of the old element type whose members or whose raw values meet the replaced indices
     refcol = {gi for gi in M if old_et in M[gi]["m"] and M[gi]["m"][old_et][0] is not None and
-              (S.members(gi, old_et) & set(olds))} if k not in ("ward_int", "xward_int") else set()
+              ((S.members(gi, old_et) & set(olds)) or (M[gi]["m"][old_et][1] & set(olds)))} if k not in ("ward_int", "xward_int") else set()
     holders = {gi: S.members(gi, old_et) & set(olds) for gi in M}
     if g.B(0.7) and normalise_nan_rc(net):
         S.x["attach_nan_rc_normalised"] += 1
@@ -1087,6 +1121,10 @@ def op_replace(S):
         gi_, et_ = py(net.group.index[pos]), net.group.element_type.iat[pos]
         if et_ in new_ets and holders.get(gi_) and isinstance(net.group.reference_column.iat[pos], float):
             nan_rows.add((gi_, et_))
+    if k in ("ward_int", "xward_int"):
+        # a row added by the first attach_to_groups call gets NaN as reference column (concat), the attach for the next
+        # ward of the same group hits the same defect
+        nan_rows |= {(gi_, n) for gi_, hs in holders.items() if len(hs) >= 2 for n in new_ets if n not in M[gi_]["m"]}
     S.ctx.update(old_et=old_et, new_et=new_et, refcol_groups=refcol, nan_rc_rows=nan_rows)
     if nan_rows:
         S.x["attach_nan_rc_row"] += 1
@@ -1378,7 +1416,7 @@ def op_as_net(S):
 
 OPS = [("create", op_create, 10), ("attach", op_attach, 16), ("detach", op_detach, 14), ("drop_group", op_drop_group, 3),
        ("drop", op_drop, 12), ("fuse", op_fuse, 3), ("reindex", op_reindex, 10), ("replace", op_replace, 9), ("set_rc", op_set_rc, 7),
-       ("set_value", op_set_value, 7), ("results", op_results, 3), ("copy_compare", op_copy_compare, 4), ("as_net", op_as_net, 2),
+       ("set_value", op_set_value, 7), ("results", op_results, 5), ("copy_compare", op_copy_compare, 4), ("as_net", op_as_net, 2),
        ("drop_group_and_elements", op_drop_group_and_elements, 2)]
 
 
@@ -1422,6 +1460,7 @@ def _run(S, seed):
     fns = {o[0]: o[1] for o in OPS}
     w = np.array([o[2] for o in OPS], dtype=float)
     S.tags.add("net:" + src.split(":")[0])
+    S.tags.add("net:" + src.split(":")[0].split(".")[0])
     ended = None
     for k in range(n_ops):
         if not S.model or (len(S.model) < 2 and g.B(0.6)):
